@@ -6,6 +6,7 @@ import (
 	"sync"
 
 	"github.com/lugu/qiloop/bus"
+	"github.com/lugu/qiloop/vhook"
 )
 
 // ErrUnknownProvider can be returned by RemoveProvider.
@@ -60,12 +61,14 @@ func (l *logManager) Log(messages []LogMessage) error {
 	var mainErr error
 	l.listenersMutex.RLock()
 	defer l.listenersMutex.RUnlock()
+	vhook.Emit("logmgr", l, "log_begin", "n", len(messages), "listeners", len(l.listeners))
 	for _, listener := range l.listeners {
 		err := listener.Messages(messages)
 		if err != nil {
 			mainErr = err
 		}
 	}
+	vhook.Emit("logmgr", l, "log_end", "err", mainErr != nil)
 	return mainErr
 }
 
@@ -75,9 +78,11 @@ func (l *logManager) terminateListener(listener *logListenerImpl) error {
 	for index, myListener := range l.listeners {
 		if listener == myListener {
 			delete(l.listeners, index)
+			vhook.Emit("logmgr", l, "lst_del", "lst", vhook.ID(listener), "index", index, "n", len(l.listeners))
 			return nil
 		}
 	}
+	vhook.Emit("logmgr", l, "lst_del_unknown", "lst", vhook.ID(listener))
 	return fmt.Errorf("Listener not found")
 }
 
@@ -102,6 +107,7 @@ func (l *logManager) CreateListener() (LogListenerProxy, error) {
 
 	l.listenersMutex.Lock()
 	l.listeners[index] = listener
+	vhook.Emit("logmgr", l, "lst_add", "lst", vhook.ID(listener), "index", index, "object", proxy.Proxy().ObjectID(), "n", len(l.listeners))
 	l.listenersMutex.Unlock()
 
 	l.UpdateFilters()
@@ -112,6 +118,7 @@ func (l *logManager) CreateListener() (LogListenerProxy, error) {
 func (l *logManager) UpdateFilters() {
 	filters := make(map[string]LogLevel)
 	l.listenersMutex.RLock()
+	vhook.Emit("logmgr", l, "fjoin_begin")
 	for _, listener := range l.listeners {
 		for cat, l := range listener.filters {
 			previous, ok := filters[cat]
@@ -120,10 +127,13 @@ func (l *logManager) UpdateFilters() {
 			}
 		}
 	}
+	vhook.Emit("logmgr", l, "fjoin", "filters", filters)
 	l.listenersMutex.RUnlock()
+	vhook.Gate("logger.filters.computed", "filters", filters)
 	l.providersMutex.RLock()
 	for _, provider := range l.providers {
 		provider.ClearAndSet(filters)
+		vhook.Emit("logmgr", l, "fpush", "prov", vhook.ID(provider), "filters", filters)
 	}
 	l.providersMutex.RUnlock()
 }
@@ -131,15 +141,19 @@ func (l *logManager) UpdateFilters() {
 func (l *logManager) UpdateVerbosity() {
 	level := LogLevelNone
 	l.listenersMutex.RLock()
+	vhook.Emit("logmgr", l, "vjoin_begin")
 	for _, listener := range l.listeners {
 		if listener.defaultLevel.Level > level.Level {
 			level = listener.defaultLevel
 		}
 	}
+	vhook.Emit("logmgr", l, "vjoin", "level", level.Level)
 	l.listenersMutex.RUnlock()
+	vhook.Gate("logger.verbosity.computed", "level", level.Level)
 	l.providersMutex.RLock()
 	for _, provider := range l.providers {
 		provider.SetVerbosity(level)
+		vhook.Emit("logmgr", l, "vpush", "prov", vhook.ID(provider), "level", level.Level)
 	}
 	l.providersMutex.RUnlock()
 }
@@ -154,6 +168,7 @@ func (l *logManager) AddProvider(provider LogProviderProxy) (int32, error) {
 	index := l.providersNext
 	l.providersNext++
 	l.providers[index] = provider
+	vhook.Emit("logmgr", l, "prov_add", "prov", vhook.ID(provider), "index", index, "n", len(l.providers))
 	l.providersMutex.Unlock()
 	l.UpdateFilters()
 	l.UpdateVerbosity()
@@ -164,7 +179,9 @@ func (l *logManager) RemoveProvider(providerID int32) error {
 	defer l.providersMutex.Unlock()
 	if _, ok := l.providers[providerID]; ok {
 		delete(l.providers, providerID)
+		vhook.Emit("logmgr", l, "prov_del", "index", providerID, "n", len(l.providers))
 		return nil
 	}
+	vhook.Emit("logmgr", l, "prov_del_unknown", "index", providerID)
 	return ErrUnknownProvider
 }
